@@ -71,6 +71,25 @@ func pubBytes(pub *btcec.PublicKey, form int) ([]byte, error) {
 		return out, nil
 	case 31:
 		return schnorr.SerializePubKey(pub)[:31], nil
+	case 12:
+		// 02 || x with x not on the curve: derived from the key, bumped until it does not parse
+		out := append([]byte{}, pub.SerializeCompressed()...)
+		out[0] = 0x02
+		for i := 0; i < 1000; i++ {
+			out[32]++
+			if _, err := btcec.ParsePubKey(out); err != nil {
+				return out, nil
+			}
+		}
+		return nil, fmt.Errorf("no off-curve x found")
+	case 14:
+		// 04 || x || y+1: not on the curve
+		out := append([]byte{}, pub.SerializeUncompressed()...)
+		out[64] ^= 0x01
+		if _, err := btcec.ParsePubKey(out); err == nil {
+			return nil, fmt.Errorf("perturbed point still parses")
+		}
+		return out, nil
 	}
 	return nil, fmt.Errorf("unknown key form %d", form)
 }
